@@ -96,12 +96,14 @@ def build_dir():
 
 # ---------------------------------------------------------------- Coq side
 
-def coq_make(timeout=1500):
-    """Full (incremental) .vo build of the development. Returns (ok, log)."""
+def coq_make(timeout=1500, target=None):
+    """(Incremental) .vo build: the whole development, or one file with everything it depends on.
+    A check builds only its own property file, so that facts regenerated for another property
+    (Generated/*.v) cannot make it fail."""
     with Lock("coq"):
         if not os.path.exists(os.path.join(COQ, "Makefile")):
             run(["coq_makefile", "-f", "_CoqProject", "-o", "Makefile"], cwd=COQ, check=True)
-        rc, out, err = run(["make", "-j16"], cwd=COQ, timeout=timeout)
+        rc, out, err = run(["make", "-j16"] + ([target] if target else []), cwd=COQ, timeout=timeout)
         return rc == 0, out + err
 
 
@@ -306,9 +308,9 @@ def proof_obligations(ctx, pid=None, extra_props=()):
     pid = pid or ctx.pid
     broken = []
     bad = forbidden_scan()
-    ok, mlog = coq_make()
+    ok, mlog = coq_make(target="theories/Properties/%s.vo" % pid)
     if not ok:
-        broken.append("coq build (make) failed: " + mlog[-1500:])
+        broken.append("coq build (make theories/Properties/%s.vo) failed: %s" % (pid, mlog[-1500:]))
     res = check_properties_file(pid)
     ths = res["theorems"]
     for t in ths:
@@ -325,7 +327,7 @@ def proof_obligations(ctx, pid=None, extra_props=()):
         "discharged": discharged if not bad else 0,
         "theorems": [t["name"] for t in ths],
         "print_assumptions": {t["name"]: ("Closed under the global context" if t["closed"] else t["axioms"]) for t in ths},
-        "checker_cmd": "make -C /verif/coq -j16 (coq_makefile, full .vo build) && coqc -Q theories PegV theories/Properties/%s.v" % pid,
+        "checker_cmd": "make -C /verif/coq -j16 theories/Properties/%s.vo (coq_makefile, full .vo build of the file and all its dependencies) && coqc -Q theories PegV theories/Properties/%s.v" % (pid, pid),
         "trusted_base": list(TRUSTED_BASE),
     })
     if not ctx.assumptions:
